@@ -308,9 +308,11 @@ int main(int argc, char** argv) {
   bool thorough = args.get("tier", "quick") == "thorough";
   uint64_t seed = args.num("seed", 1); int64_t from = args.num("from", 0);
   int64_t only = -1; int max_tasks = -1; bool have_replay_script = false; std::vector<SchedEntry> replay_script;
+  std::vector<int64_t> warm, recent;   // warm: runs this process executed just before the replayed one (their process-global leftovers are part of its input)
   if (cmd == "replay") {
     J rp; if (args.pos.size() < 2 || !J::load(args.pos[1], rp)) return 2;
     const J& c = rp.has("replay") ? rp["replay"] : rp; seed = (uint64_t) c["seed"].num(); only = c["run"].num(); max_tasks = c.has("max_tasks") ? (int) c["max_tasks"].num() : -1;
+    if (c.has("warm")) for (size_t k = 0; k < c["warm"].size(); k++) warm.push_back(c["warm"][k].num());
     if (c.has("schedule")) { have_replay_script = true; for (size_t k = 0; k < c["schedule"].size(); k++) replay_script.push_back({(int) c["schedule"][k][0].num(), c["schedule"][k][1].num(), (int) c["schedule"][k][2].num()}); }
   }
   sim_detheap_enable();                       // yara's heap addresses become a function of the run alone
@@ -321,10 +323,14 @@ int main(int argc, char** argv) {
   double budget = (double) args.num("budget", thorough ? 1200 : 60), t0 = now_s();
   int64_t nruns = args.num("runs", thorough ? 200000 : 1600);
   bool dump = args.has("dump-hashes");
+  // a replay first repeats the runs that preceded the recorded one in its process: the code under test may keep
+  // process-global state from one scan to the next, and a worker that dies in run n may die of what run n-1 left behind
+  for (int64_t w : warm) { Rng wr(sim_run_seed(seed, w)); RunPlan wp = gen_plan(wr, (int) shared.size(), wr.chance(1, 12)); execute(shared, wp, sim_run_seed(seed, w) ^ 0x5ced, nullptr); }
   for (int64_t i = only >= 0 ? only : from; i < (only >= 0 ? only + 1 : nruns); i++) {
     if (only < 0 && !sh.mine(i)) continue;
     if (only < 0 && now_s() - t0 > budget) { st.c["stopped_by_budget"]++; break; }
-    if (only < 0) { J b = J::obj(); b.set("t", "begin"); b.set("run", i); J rp = J::obj(); rp.set("engine", "sim_threads"); rp.set("seed", (int64_t) seed); rp.set("run", i); b.set("replay", rp); emit_line(b); }
+    if (only < 0) { J b = J::obj(); b.set("t", "begin"); b.set("run", i); J rp = J::obj(); rp.set("engine", "sim_threads"); rp.set("seed", (int64_t) seed); rp.set("run", i); if (!recent.empty()) { J wj = J::arr(); for (int64_t w : recent) wj.push(w); rp.set("warm", wj); } b.set("replay", rp); emit_line(b); }
+    recent.push_back(i); if (recent.size() > 3) recent.erase(recent.begin());
     Rng rng(sim_run_seed(seed, i));
     RunPlan plan = gen_plan(rng, (int) shared.size(), rng.chance(1, 12));
     if (max_tasks > 0 && (int) plan.tasks.size() > max_tasks) plan.tasks.resize(max_tasks);
